@@ -28,6 +28,7 @@ META = {
     "member of the reference set; exhaustive within N",
     "note": "trusted: CPython, the harness in /verif/vf (vt.py, timeref.py), the reference simulators, VirtualTimeScheduler's queue discipline (C28/C29)",
 }
+META["text"] += "; thread part: debounce, throttle_with_mapper, sample on TimeoutScheduler/EventLoopScheduler (controlled clock) with the source on its own thread and a notification in the instant a timer is due: the pending element is never lost, nothing superseded or early is emitted"
 RULE = (
     "all (instance, timeline) pairs: instance = operator x due time/period/throttle observables x parameter form x clock kind; timelines = every "
     "sequence of <=N on_next with consecutive gaps in {0,5,10,15} followed by nothing, completion or error after every gap in "
